@@ -7,6 +7,7 @@ import ast
 from sa import cfg as cfgmod
 from sa import effects
 from sa import model
+from sa import norm
 from sa.model import AnalysisError
 
 TITLE = 'loops over unordered overload sets are order-insensitive'
@@ -278,11 +279,7 @@ def analyse_loop(repo, rep, fi, loop, label):
                                        '%s is utils.NO_VALUE' % name)
             if init:
                 # sibling branch compares and raises
-                alt = i.orelse[0] if len(i.orelse) == 1 and isinstance(
-                    i.orelse[0], ast.If) else None
-                alt_ok = alt is not None and name in model.names_loaded(
-                    alt.test) and '!=' in model.norm(alt.test) and \
-                    _always_raises_block(alt.body, nr)
+                alt_ok = _agreement_enforced(fi, loop, name, nr)
                 if not alt_ok:
                     problems.append((a, 'first element initialises `%s` '
                                      'but later elements are not compared '
@@ -359,6 +356,50 @@ def analyse_loop(repo, rep, fi, loop, label):
         seenp.add(k)
         rep.ob('R06b', site, False, why, loc=mod.loc(node),
                construct=model.norm(node).split('\n')[0][:140])
+
+
+def _agreement_enforced(fi, loop, name, nr):
+    """Some raise / never-returning call in the loop is necessarily reached
+    whenever `name` is set and differs from the value it is compared with
+    (if/elif, early-exit, negated-equality spellings alike)."""
+    raisers = []
+    for st in loop.body:
+        for n in model.walk_shallow(st):
+            if isinstance(n, ast.Raise):
+                raisers.append(n)
+            elif isinstance(n, ast.Call) and isinstance(
+                    n.func, ast.Name) and n.func.id in nr:
+                raisers.append(n)
+
+    def oracle(e):
+        if isinstance(e, ast.Compare) and len(e.ops) == 1:
+            l, r = e.left, e.comparators[0]
+            names = [x.id for x in (l, r) if isinstance(x, ast.Name)]
+            if name in names:
+                other = r if isinstance(l, ast.Name) and l.id == name else l
+                if isinstance(other, ast.Constant) and other.value is None \
+                        or model.norm(other).endswith('NO_VALUE'):
+                    if isinstance(e.ops[0], ast.Is):
+                        return False
+                    if isinstance(e.ops[0], ast.IsNot):
+                        return True
+                    return None
+                if isinstance(e.ops[0], ast.NotEq):
+                    return True
+                if isinstance(e.ops[0], ast.Eq):
+                    return False
+        return None
+    for r in raisers:
+        gs = norm.guards(r, loop)
+        rel = [(e, p) for e, p in gs if name in {
+            x.id for x in ast.walk(e) if isinstance(x, ast.Name)}]
+        if not any(isinstance(c, ast.Compare) and isinstance(
+                c.ops[0], (ast.NotEq, ast.Eq)) for e, p in rel
+                for c in ast.walk(e)):
+            continue
+        if all(norm.eval3(e, oracle) == p for e, p in rel):
+            return True
+    return False
 
 
 def _bound_locally(x, name):
